@@ -57,6 +57,11 @@ impl Cache {
         self.push_proc_pri(proc, true);
     }
 
+    /// a process that is being started takes its id at once, before it is launched
+    pub fn reserve_proc(&self, proc: &Arc<Process>) {
+        self.push_proc_pri(proc, false);
+    }
+
     pub fn procs(&self) -> Vec<Arc<Process>> {
         let mut procs = Vec::new();
         for (_, proc) in self.procs.iter() {
